@@ -135,7 +135,7 @@ Module DacTree.
     /\ snd (k_open dfs (svu bob 18) (abs_path [n_h; n_f]) 0 0) = inr 2.
   Proof.
     split; [|vm_compute; reflexivity].
-    apply (dstep_open_nocreat dfs (svu bob 18) [n_h; n_f] 0 0 0 (dtree_hyps bob 18)); [path_ok_tac|reflexivity|discriminate].
+    apply (dstep_open_nocreat dfs (svu bob 18) [n_h; n_f] 0 0 0 (dtree_hyps bob 18)); [path_ok_tac|reflexivity].
   Qed.
 
   Example open_bob_write_refused :
@@ -143,7 +143,7 @@ Module DacTree.
     /\ snd (k_open dfs (svu bob 18) (abs_path [n_h; n_f]) 1 0) = inl EACCES.
   Proof.
     split; [|vm_compute; reflexivity].
-    apply (dstep_open_nocreat dfs (svu bob 18) [n_h; n_f] 1 0 0 (dtree_hyps bob 18)); [path_ok_tac|reflexivity|discriminate].
+    apply (dstep_open_nocreat dfs (svu bob 18) [n_h; n_f] 1 0 0 (dtree_hyps bob 18)); [path_ok_tac|reflexivity].
   Qed.
 
   Example open_alice_create_excl :
@@ -339,7 +339,7 @@ Module DacTree.
     /\ snd (k_open dfs (svu alice 18) (abs_path [n_h; n_f]) 3 0) = inr 2.
   Proof.
     split; [|split; vm_compute; reflexivity].
-    apply (dstep_open_nocreat dfs (svu bob 18) [n_h; n_f] 3 0 0 (dtree_hyps bob 18)); [path_ok_tac|reflexivity|discriminate].
+    apply (dstep_open_nocreat dfs (svu bob 18) [n_h; n_f] 3 0 0 (dtree_hyps bob 18)); [path_ok_tac|reflexivity].
   Qed.
 
   (* ---- a covered call at the level of worlds ----------------------------------------------------------------------- *)
